@@ -37,6 +37,7 @@ class Contract:
     closure: dict = field(default_factory=dict)         # nested functions: free variables of the enclosing def -> type
     globals_in: dict = field(default_factory=dict)      # 'module.name' -> type: module globals the function reads (inputs)
     locals: dict = field(default_factory=dict)          # local variable -> type string (unannotated locals such as `m = {}`)
+    oneshot: list = field(default_factory=list)         # iterable parameters that may be one-shot iterators: every path uses them in one single traversal
 
 
 @dataclass
